@@ -209,16 +209,30 @@ def check_invariants(eng, rep, ob):
               "eclose_iterable returns a union of eclose(x) (qualifier established by interpreting its body)",
               "eclose_iterable does not return a union of epsilon closures on every path", s2,
               site=site_of(prog, fi2, fi2.node))
-    # NFA.add_transition rejects epsilon before delegating
+    # NFA.add_transition / the deterministic transition function refuse epsilon: every store they make (the delegated
+    # add_transition call, the write into the table) lies on a path where the symbol was compared unequal to Epsilon()
+    from .flow import own, code_nodes, excludes_value
+
+    def _is_eps(n):
+        return isinstance(n, ast.Call) and (getattr(n.func, "id", None) == "Epsilon" or getattr(n.func, "attr", None) == "Epsilon")
     f3 = prog.method("NondeterministicFiniteAutomaton", "add_transition")
-    ok = _rejects_epsilon_first(f3)
-    ob.decide("R7", "C01.5", f3, "nfa-rejects-epsilon", ok, "NFA.add_transition raises on epsilon before delegating",
-              "NondeterministicFiniteAutomaton.add_transition can store an epsilon edge", None,
-              site=site_of(prog, f3, f3.node))
-    f4 = prog.method("TransitionFunction", "add_transition") if False else prog.functions[TF + ".add_transition"]
-    ob.decide("R7", "C01.5", f4, "dfa-function-rejects-epsilon", _rejects_epsilon_first(f4),
-              "the deterministic transition function raises on epsilon",
-              "TransitionFunction.add_transition can store an epsilon edge", None, site=site_of(prog, f4, f4.node))
+    s3 = interp.run_entry(f3, NFA)
+    stores = [ev for ev, _ in calls(s3, "add_transition", own=True)]
+    bad = [ev for ev in stores if not excludes_value(code_nodes(prog, f3), ev.facts, _is_eps)]
+    ob.decide("R7", "C01.5", f3, "nfa-rejects-epsilon", bool(stores) and not bad,
+              "NFA.add_transition delegates only on a path where the symbol differs from Epsilon()",
+              "NondeterministicFiniteAutomaton.add_transition can store an epsilon edge", s3,
+              site=(bad[0].site.to_json() if bad else site_of(prog, f3, f3.node)))
+    f4 = prog.functions[TF + ".add_transition"]
+    s4 = interp.run_entry(f4, TF)
+    stores = [ev for ev in own(s4) if ev.kind == "write" and ev.recv is not None and
+              any(l[0] == "self" and l[1][:1] == ("_transitions",) for l in ev.recv.alias)]
+    bad = [ev for ev in stores if not excludes_value(code_nodes(prog, f4), ev.facts, _is_eps)]
+    ob.decide("R7", "C01.5", f4, "dfa-function-rejects-epsilon", bool(stores) and not bad,
+              "the deterministic transition function writes its table only on a path where the symbol differs from "
+              "Epsilon() (%d writes)" % len(stores),
+              "TransitionFunction.add_transition can store an epsilon edge", s4,
+              site=(bad[0].site.to_json() if bad else site_of(prog, f4, f4.node)))
     # a DFA's transition function is only ever the deterministic class
     tf = interp.field_table.get((DFA, "_transition_function"))
     ob.decide("R7", "C01.5", prog.method("DeterministicFiniteAutomaton", "__init__"), "dfa-transition-function-class",
@@ -229,21 +243,19 @@ def check_invariants(eng, rep, ob):
                                  prog.method("DeterministicFiniteAutomaton", "__init__").node))
     # Epsilon is never put into the alphabet
     f5 = prog.functions["pyformlang.finite_automaton.finite_automaton.FiniteAutomaton.add_transition"]
-    guarded = False
-    for sub in ast.walk(f5.node):
-        if isinstance(sub, ast.If) and "Epsilon()" in ast.unparse(sub.test) and "!=" in ast.unparse(sub.test):
-            if any("_input_symbols.add" in ast.unparse(x) for x in sub.body):
-                guarded = True
-    unguarded = any(isinstance(st, ast.Expr) and "_input_symbols.add" in ast.unparse(st) for st in f5.node.body)
-    ob.decide("R7", "C01.5", f5, "epsilon-not-in-alphabet", guarded and not unguarded,
-              "add_transition keeps Epsilon out of the alphabet",
-              "Epsilon can enter _input_symbols through add_transition", None, site=site_of(prog, f5, f5.node))
+    s5 = interp.run_entry(f5, ENFA)
+    from .flow import own, code_nodes, excludes_value
 
-
-def _rejects_epsilon_first(fi) -> bool:
-    body = [s for s in fi.node.body if not (isinstance(s, ast.Expr) and isinstance(s.value, ast.Constant))]
-    if not body or not isinstance(body[0], ast.If):
-        return False
-    test = ast.unparse(body[0].test)
-    raises = any(isinstance(x, ast.Raise) for x in body[0].body)
-    return "Epsilon()" in test and "==" in test and raises
+    def _is_eps(n):
+        return isinstance(n, ast.Call) and (getattr(n.func, "id", None) == "Epsilon" or getattr(n.func, "attr", None) == "Epsilon")
+    alpha = ("self", ("_input_symbols",))
+    adds = [ev for ev in own(s5) if ev.kind == "write" and ev.recv is not None and alpha in ev.recv.alias
+            and (ev.wkind or "").startswith("mutate:") and ev.value is not None]
+    nodes5 = code_nodes(prog, f5)
+    bad = [ev for ev in adds if not excludes_value(nodes5, ev.facts, _is_eps)]
+    ob.decide("R7", "C01.5", f5, "epsilon-not-in-alphabet", bool(adds) and not bad,
+              "add_transition puts a symbol into the alphabet only on a path where it differs from Epsilon() (%d insertions)"
+              % len(adds),
+              "Epsilon can enter _input_symbols through add_transition" if adds else
+              "add_transition does not record the symbol in _input_symbols", s5,
+              site=(bad[0].site.to_json() if bad else site_of(prog, f5, f5.node)))
